@@ -5,6 +5,7 @@ import (
 	"encoding/hex"
 	"fmt"
 	"github.com/hashicorp/go-hclog"
+	"io"
 	"strings"
 	"testing"
 	"time"
@@ -99,6 +100,19 @@ func decodeNoPanic(stream []byte) (decoded int, fail *lab.Fail) {
 	return decoded, nil
 }
 
+// c02DebugLogger: a logger at debug level that discards its output; the read path dumps every packet it has
+// read when its logger is at that level.
+var c02DebugLogger = hclog.New(&hclog.LoggerOptions{Name: "c02", Level: hclog.Debug, Output: io.Discard})
+
+// decodeNoPanicDebug is decodeNoPanic through the same hook with the connection's logger at debug level.
+func decodeNoPanicDebug(stream []byte) *lab.Fail {
+	site, val, _ := guard(func() { _, _ = gldap.VerifDecodeStreamLogged(stream, c02DebugLogger, touch) })
+	if val != nil {
+		return lab.Failf("panic@debug:"+site+":"+panicClass(val), "decoding %s with the connection's logger at DEBUG level panicked: %v", hexTrunc(stream), val)
+	}
+	return nil
+}
+
 func hexTrunc(b []byte) string {
 	if len(b) > 200 {
 		return hex.EncodeToString(b[:200]) + fmt.Sprintf("…(%d bytes)", len(b))
@@ -131,6 +145,9 @@ func c02Exec(canon []ReqSpec, trees []*wire.Node, canonBytes [][]byte) func(c c0
 				return nil
 			}
 			_, fail := decodeNoPanic(b)
+			if fail == nil {
+				fail = decodeNoPanicDebug(b)
+			}
 			return fail
 		}
 		if c.Canon < 0 || c.Canon >= len(trees) {
@@ -163,6 +180,11 @@ func c02Exec(canon []ReqSpec, trees []*wire.Node, canonBytes [][]byte) func(c c0
 		if n > 0 {
 			cls = append(cls, "still-decoded")
 		}
+		if fail == nil && len(c.Muts) <= 1 {
+			// the complete single-point set (and the canonical requests) once more with the logger at debug level
+			fail = decodeNoPanicDebug(b)
+			cls = append(cls, "also-at-debug-level")
+		}
 		st.Case(nontrivial, b, cls...)
 		if st.WantSample() && len(c.Muts) > 0 {
 			c.Hex = hexTrunc(b)
@@ -192,7 +214,7 @@ func TestC02Mutants(t *testing.T) {
 	}
 	lab.SkipIfReplayOther(t, "mutants")
 	st := lab.GetStats("C02", "mutants")
-	st.SetRule("exhaustive: every proper prefix of every canonical stream and of a TLS ClientHello / HTTP request; every single-point shape/type mutation (replace by each of 46 alien node kinds, delete, duplicate, swap, truncate/extend child lists to every length, corrupt length octets, flip class/constructed/tag, corrupt primitive content) of every canonical request (each operation x each control kind, control values opened up and mutated inside); thorough adds every double-point mutant (second point from the reduced operator set); non-trivial = bytes differ from the canonical request AND asn1-ber parses the frame (gldap's own code is reached); distinct by hash of the bytes")
+	st.SetRule("exhaustive: every proper prefix of every canonical stream and of a TLS ClientHello / HTTP request; every single-point shape/type mutation (replace by each of 46 alien node kinds, delete, duplicate, swap, truncate/extend child lists to every length, corrupt length octets, flip class/constructed/tag, corrupt primitive content) of every canonical request (each operation x each control kind, control values opened up and mutated inside); thorough adds every double-point mutant (second point from the reduced operator set); prefixes and single-point mutants are decoded a second time with the connection's logger at debug level (the read path dumps packets only then); non-trivial = bytes differ from the canonical request AND asn1-ber parses the frame (gldap's own code is reached); distinct by hash of the bytes")
 	defer st.Flush()
 	canon, trees, cb := c02Setup()
 	exec := c02Exec(canon, trees, cb)
